@@ -8,6 +8,22 @@ import json, os, re, shutil, subprocess, sys, time
 ENV = dict(os.environ, GOFLAGS="-mod=mod", GOPROXY="off", GOSUMDB="off", GOTOOLCHAIN="local")
 SUITE = "go build ./... && go test -vet=off -count=1 ./ipfix/ ./mirror/ ./netflow/... ./packet/ ./producer/ ./reader/ ./sflow/ ./stress/hammer/"
 
+def save_evidence():
+    """checks run against a mutated /repo must not leave their evidence behind: evidence/ is restored afterwards"""
+    import tempfile
+    d = tempfile.mkdtemp(prefix="evidence-keep-", dir="/verif/.build")
+    if os.path.isdir("/verif/evidence"):
+        shutil.copytree("/verif/evidence", d + "/evidence")
+    return d
+
+
+def restore_evidence(d):
+    if os.path.isdir(d + "/evidence"):
+        shutil.rmtree("/verif/evidence", ignore_errors=True)
+        shutil.copytree(d + "/evidence", "/verif/evidence")
+    shutil.rmtree(d, ignore_errors=True)
+
+
 def sh(cmd, cwd):
     p = subprocess.run(cmd, shell=True, cwd=cwd, env=ENV, stdout=subprocess.PIPE, stderr=subprocess.STDOUT, text=True, timeout=1200)
     return p.returncode, p.stdout
@@ -28,6 +44,7 @@ def recheck(name, checks):
                 applied = os.path.basename(c); break
     if not applied:
         print(name, "DOES NOT APPLY"); return 1
+    ev = save_evidence()
     try:
         for c in checks:
             t = time.time()
@@ -37,6 +54,7 @@ def recheck(name, checks):
             print(name, c, rc, v[:1])
     finally:
         sh("git reset -q --hard HEAD; git clean -fdq", "/repo")
+        restore_evidence(ev)
     json.dump(meta, open(dst + "/meta.json", "w"), indent=1)
     return 0
 
@@ -99,6 +117,7 @@ def main():
         print("DOES NOT APPLY to current /repo")
     else:
         meta["applied_to_current_repo"] = applied
+        ev = save_evidence()
         try:
             for c in checks:
                 t = time.time()
@@ -108,6 +127,7 @@ def main():
                 print(c, rc, v[:1], "" if rc in (0, 1) else out[-400:])
         finally:
             sh("git reset -q --hard HEAD; git clean -fdq", "/repo")
+            restore_evidence(ev)
     json.dump(meta, open(dst + "/meta.json", "w"), indent=1)
     return 0
 sys.exit(main())
